@@ -39,6 +39,7 @@ THEOREMS = [
     'C17_inline_fill_m_rejected',
     'C17_inline_m_rejected',
     'C17_unknown_mnemonic_rejected',
+    'C17_flagged_macrobody_rejected',
     'C17_macro_arity_rejected',
     'C17_macro_arity_exact',
     'C17_surface_arity_rejected',
@@ -274,6 +275,18 @@ CORPUS = [
     ('rpp_arity', _b(surfs='3 rpp 0 1 0 1 0'), [], 'EMacroBody'),
     ('rhp_arity', _b(surfs='3 rhp 0 0 0 0 0 5 1 0 0 0 1 0'), [], 'EMacroBody'),
     ('unknown_mnemonic', _b(surfs='3 qx 1'), [], 'EValue'),
+    ('flagged_macrobody', _b().replace('2 rcc', '*2 rcc'), [],
+     'ENotImplemented'),
+    ('flagged_macrobody_skip_geomcomp', _b().replace('2 rcc', '+2 rcc'),
+     ['--skip-geomcomp'], 'ENotImplemented'),
+    ('control_flagged_macrobody_skip_bc', _b().replace('2 rcc', '*2 rcc'),
+     ['--skip-boundary-conditions'], None),
+    ('control_flagged_sphere', _b().replace('1 so 1', '*1 so 1'),
+     ['--skip-geomcomp'], None),
+    ('latopt_float_cell', _LAT.format(fill='fill=2'),
+     ['--lattice', '1.0,0:1,0:1'], 'ELatCellNotInt'),
+    ('latopt_float_cell_truncated', _LAT.format(fill='fill=2'),
+     ['--lattice', '1.7,0:1,0:1'], 'ELatCellNotInt'),
     ('t_mnemonic', _b(surfs='3 t 0 0 0 5 1 1'), [], 'EKey'),
     ('facet_range', _b(c1='2.4'), [], 'ECellConversion'),
     ('facet_range_trcl', _b(c1='2.4 trcl=(1 0 0)'), [], 'EIndex'),
